@@ -4,6 +4,16 @@ from lib import *
 from trace import *
 
 
+def until_unknown(evs):
+    """Events up to and including the first Unknown answer: what Rust does after the panic started
+    (Drop of MaximalExtensionComputer adds its selector clause while unwinding) is not part of the
+    query any more."""
+    for i, e in enumerate(evs):
+        if " solve " in e and e.endswith("=> X"):
+            return evs[: i + 1]
+    return evs
+
+
 def verdict_of(spec_case):
     for o in spec_case.outs:
         if o.startswith("verdict "):
@@ -19,7 +29,7 @@ def spec_info(spec_case):
 
 
 def static_check(ctx, mode, total, extra="", select=None, oracle_relevant=None, rule="", max_n=None,
-                 finish=True, tag=None, extra_props=(), count_bound=False):
+                 finish=True, tag=None, extra_props=(), count_bound=False, judge=None, extra_stats=None):
     """select(case) -> bool: which generated cases belong to this property.
     oracle_relevant(verdict string) -> bool: which oracle verdicts are violations of THIS property."""
     proofs_ok = check_proofs(ctx, extra_props=extra_props)
@@ -74,6 +84,10 @@ def static_check(ctx, mode, total, extra="", select=None, oracle_relevant=None, 
                 stats["judged"] += 1
             if has_dup(o0):
                 v = "bad duplicate-member"
+            if judge is not None:
+                v = judge(c, sp, v)
+            if extra_stats is not None:
+                extra_stats(c, sp, stats)
             if v.startswith("bad") or v == "panic":
                 if oracle_relevant is None or oracle_relevant(v, c):
                     what = "%s: %s (%s)" % (c.kind, v, spec_info(sp) if sp else "")
@@ -91,7 +105,7 @@ def static_check(ctx, mode, total, extra="", select=None, oracle_relevant=None, 
             if m is None:
                 corr = corr or (c, "model produced no output")
                 continue
-            de = first_diff(canon_events(c.evs), canon_events(m.evs))
+            de = first_diff(canon_events(until_unknown(c.evs)), canon_events(until_unknown(m.evs)))
             if de is not None:
                 corr = corr or (c, "event %d: impl `%s` model `%s`" % de)
                 continue
